@@ -439,7 +439,7 @@ PROPS["C32"] = {
 PROPS["C19"] = {
     "title": "WHERE partitions rows by truth value",
     "kani": [],
-    "e2": ["iters", "pushdown"],
+    "e2": ["iters", "pushdown", "c23"],
     "functions_encoded": ["plan_iterators::FilterIter::next", "evaluator::evaluate_expression_bool",
                           "query_api::match_compile::extend_predicates_from_properties"],
     "bounds": {"stream": "every input prefix of <= 3 items (quick) / 5 (thorough), each item Ok(row) | Err | end of stream",
@@ -455,7 +455,8 @@ PROPS["C19"] = {
                   "is emitted iff it is the next Ok row whose predicate value is exactly Bool(true); Err items and compatibility errors are "
                   "forwarded; no row is emitted twice, reordered or skipped for another reason; None only at end of input. And of the push-down "
                   "map construction: every inline pattern property ends up in the pushed-down predicate set of its variable whatever the map "
-                  "held before (a WHERE equality on the same key never displaces it), other entries are untouched.",
+                  "held before (a WHERE equality on the same key never displaces it), other entries are untouched. And of the AND / OR / NOT arms "
+                  "of the evaluator with operands of any kind (Bool, Null, non-boolean): the result is always true, false or null.",
     "level_note": "Trusted: rustc MIR dump, E2 translator, stream and map models, z3.",
     "design_ref": "DESIGN.md section 3, C19",
 }
